@@ -370,4 +370,32 @@ CHECKS["C11"] = dict(
     thorough=dict(workers=16, cases=20000, maxsize=40),
 )
 
+CHECKS["C08"] = dict(
+    harness="C08_life", sources=["props/C08_life.cc", "shim/shim.c", "pki/pki.cc"], variant="asan",
+    level="fault_enumeration", engine="rapidcheck API programs + complete single-fault enumeration per program in forked children (shim) + ASan",
+    technique="fault-injection enumeration: each generated API program is re-run once per resource-creating "
+              "system call x plausible errno; invariants on the descriptor table, heap steady state, socket / "
+              "control files, foreign-descriptor operations and process survival",
+    level_text="Generated programs of up to 16 operations over six socket slots (server / connect / accept / "
+               "send / receive / attribute listing / close / fork + xcm_cleanup in a child) on ux, uxf, tcp, tls, "
+               "utls (UX and TLS leg), btcp, btls, with the control interface enabled in 3 of 4 programs. The "
+               "fault-free run (5 repetitions) lists the calls to socket, accept4, epoll_create1, eventfd, "
+               "timerfd_create, connect, bind, listen, fopen made inside XCM; then every one of them is made to "
+               "fail, one per forked run of 3 repetitions, with each plausible errno (EMFILE, ENOBUFS/ENOMEM, "
+               "ECONNABORTED, ENETUNREACH, ECONNREFUSED, EADDRINUSE, EACCES, ENOENT): complete per program. "
+               "Programs are sampled.",
+    level_note="Single faults only (pairs are not enumerated). Heap: strictly positive, equal growth over three "
+               "consecutive repetitions counts as a leak; LeakSanitizer is not used in the children.",
+    rule=("case = one program + all its single faults. After every repetition: /proc/self/fd (numbers and "
+          "kinds) equals the start table, no file is left in the UXF or control directories, no close()/"
+          "epoll_ctl() inside XCM hit a descriptor XCM did not create, a failing call returned NULL/-1 with "
+          "errno set; the child did not die of a signal or hang; after fork + xcm_cleanup in a child the "
+          "owner's files exist, its established connections still deliver and the peer saw no close. "
+          "Non-trivial = a fault hit after the same API call had already created a resource (an unwind "
+          "ladder ran), or the program contained fork + cleanup."),
+    assumptions=["control-interface creation failing silently (socket still returned) is by design"],
+    quick=dict(workers=16, cases=8, maxsize=15, env={"VF_C08_CAP": "150"}),
+    thorough=dict(workers=16, cases=300, maxsize=15),
+)
+
 NOT_APPLICABLE = []
